@@ -474,11 +474,17 @@ def run_sharded(exe, cases, nshards=None, timeout=900, env=None):
 # Reporting
 # --------------------------------------------------------------------------
 def load_known():
-    p = os.path.join(ROOT, "known_findings.json")
-    try:
-        return json.load(open(p)).get("findings", [])
-    except OSError:
-        return []
+    out = []
+    ps = [os.path.join(ROOT, "known_findings.json")]
+    kd = os.path.join(ROOT, "known")
+    if os.path.isdir(kd):
+        ps += sorted(os.path.join(kd, f) for f in os.listdir(kd) if f.endswith(".json"))
+    for p in ps:
+        try:
+            out += json.load(open(p)).get("findings", [])
+        except OSError:
+            pass
+    return out
 
 
 class Check:
